@@ -159,6 +159,49 @@ theorem ArgIndexSite.ok_sound (s : ArgIndexSite) (hok : s.ok = true) (len i : Na
       simpa [hallL] using this
   exact ArgIdx.eval_mono s.idx L len _ hLle hidxL
 
+/-! ## unchecked type assertions: soundness of `AssertSite.ok` -/
+
+theorem canAssert_succeeds (impl : List (String × String)) (dyn typ : String) (h : canAssert impl dyn typ = true) :
+    Succeeds impl dyn typ := by
+  unfold canAssert at h
+  simp only [Bool.and_eq_true, Bool.or_eq_true, bne_iff_ne, ne_eq, beq_iff_eq, List.contains_eq_mem, decide_eq_true_eq] at h
+  exact ⟨h.1.1, h.2⟩
+
+/-- **checker soundness**: at a site the checker accepts, whatever dynamic type the guard leaves possible, `x.(T)` succeeds -/
+theorem AssertSite.ok_sound (sources : List (String × List String)) (keyed : KeyedTable) (impl : List (String × String)) (s : AssertSite)
+    (hok : s.ok sources keyed impl = true) (dyn : String) (h : s.admits sources keyed impl dyn) : Succeeds impl dyn s.typ := by
+  unfold AssertSite.ok at hok
+  unfold AssertSite.admits at h
+  cases hg : s.guard with
+  | inCase => rw [hg] at h; exact h
+  | afterOk => rw [hg] at h; exact h
+  | unknown w => rw [hg] at hok; exact absurd hok (by simp)
+  | keyed src keys =>
+    rw [hg] at hok h
+    simp only [Bool.and_eq_true] at hok h
+    obtain ⟨k, hk, hts⟩ := h
+    have hall := List.all_eq_true.mp hok.2 k hk
+    cases hl : lookupKeyed keyed src k with
+    | none => rw [hl] at hall; exact absurd hall (by simp)
+    | some ts =>
+      rw [hl] at hall
+      simp only at hall
+      exact canAssert_succeeds impl dyn s.typ (List.all_eq_true.mp hall dyn (hts ts hl))
+  | oneOf src excl =>
+    rw [hg] at hok h
+    simp only at hok h
+    cases hl : lookupSrc sources src with
+    | none => rw [hl] at hok; exact absurd hok (by simp)
+    | some ts =>
+      rw [hl] at hok h
+      simp only at hok h
+      rw [List.all_eq_true] at hok
+      have := hok dyn h.1
+      rw [Bool.or_eq_true] at this
+      cases this with
+      | inl hx => exact absurd (by simpa using hx) h.2
+      | inr hc => exact canAssert_succeeds impl dyn s.typ hc
+
 /-! generic: a list all of whose elements lie in an EMPTY exception list is empty / meets the predicate -/
 
 theorem all_contains_nil {α β} [BEq β] (l : List α) (g : α → β)
